@@ -133,6 +133,10 @@ class Spec(PropSpec):
         # an entry removed and created again at the same path (outside the narrow class Recreate)
         rc = F.recreate_scenarios(rng, crash=False)
         cases += rc if not q else rng.sample(rc, 100)
+        # a data-synced file renamed several times with no directory sync in between, within one directory
+        # (outside the narrowed RenameFile (d); the persisted data must follow the chain newest-first)
+        ch = F.rename_chain_scenarios(rng, crash=False)
+        cases += ch if not q else rng.sample(ch, 40)
         # two hosts of a real turmoil::Sim with identical path names (per-host Fs entered by the Sim)
         for _ in range(40 * k):
             c = F.gen_safe(rng, stale=0.0, nhosts=2)
